@@ -23,6 +23,8 @@ CASEF = {"uw": str.upper, "lw": str.lower, "cw": str.title}
 ID = "C01"
 DRIVER = "drv_c01"
 PROPS = ["Ptk.Props.C01"]
+ANCHORS = ["src/prompt_toolkit/buffer.py", "src/prompt_toolkit/document.py",
+           "src/prompt_toolkit/key_binding/bindings/named_commands.py"]
 LEVEL_TEXT = ("Lean 4 theorems over an executable model of the Buffer edit API: functional specs of insert / "
               "overwrite / delete / delete_before_cursor / swap / join / transforms / indent and the invariant "
               "0 <= cursor <= len(text) for every finite op sequence; the model is tied to /repo on every run by a "
